@@ -100,7 +100,9 @@ CLAIMED = {
          "Rocq proof of pass-through/fixed-point over a parametric save machine + instrumented correspondence + recompile sweeps"),
  "C02": ("Round-trip theorems for the Gallina transcriptions of the hmtx/vmtx codec (trailing-advance trimming: decoding with the "
          "numberOfHMetrics the compiler chose returns every glyph's metrics; that count is minimal) and of loca (round trip; the short format "
-         "is chosen exactly when every offset is even and below 0x20000), for all metric/offset lists. Tied to the table classes by byte-exact "
+         "is chosen exactly when every offset is even and below 0x20000) and of the simple-glyph point data of glyf (flag stream with repeat "
+         "runs, zero/short/word coordinate forms: compileDeltasGreedy then decompileCoordinates is the identity on every non-empty point list "
+         "with int16 deltas), for all metric/offset/point lists. Tied to the table classes by byte-exact "
          "correspondence incl. malformed data for the decoder. The remaining codecs (cmap 0/2/4/6/12/13/14, simple glyphs with every flag/"
          "repeat pattern and both coordinate compilers, components, whole glyf/loca tables around the 0x20000 limit with every padding, gvar "
          "tuple variations with 1..300 explicit points, name, kern) are implementation round-trip sweeps on generated contents (testing). "
